@@ -221,6 +221,9 @@ def offsets_worker(part, codes, mixed_eps):
     from chmpy.crystal.symmetry_operation import SymmetryOperation
 
     ks = list(itertools.product(range(-2, 3), repeat=3))
+    # far lattice translations (an atom followed through thousands of cells; a float translation there still carries the twelfths to
+    # ~1e-11): with the unperturbed translation only
+    far = [(1000, 0, 0), (0, -20000, 0), (0, 0, 100000), (50000, -100000, 150000), (-16384, 32768, -65536)]
     E = 1e-12
     if mixed_eps:
         epss = list(itertools.product((-E, 0.0, E), repeat=3))
@@ -232,8 +235,8 @@ def offsets_worker(part, codes, mixed_eps):
         bstr = symm.canonical_string(op)
         Rm = np.array(op[0], dtype=float).reshape(3, 3)
         tm = np.array(op[1], dtype=float) / 12
-        for k in ks:
-            for eps in epss:
+        for k in ks + far:
+            for eps in (epss if k not in far else epss[:1]):
                 part.ev()
                 part.tr(2)
                 off = np.array(k, dtype=float) + np.array(eps)
@@ -348,7 +351,7 @@ def run(ctx):
     ctx.bounds["spelling_deviations"] = md
     ctx.pmap(spelling_worker, chunked(table_codes, 40), max_dev=md)
     # ---- (d) lattice offsets -----------------------------------------------------
-    ctx.bounds["offsets"] = "k in {-2..2}^3 x eps in {-1e-12,0,+1e-12} (%s)" % ("all 27 sign patterns" if ctx.thorough else "one component perturbed at a time")
+    ctx.bounds["offsets"] = "k in {-2..2}^3 x eps in {-1e-12,0,+1e-12} (%s) + 5 far lattice vectors (1e3 .. 1.5e5 cells)" % ("all 27 sign patterns" if ctx.thorough else "one component perturbed at a time")
     ctx.pmap(offsets_worker, chunked(table_codes, 40), mixed_eps=ctx.thorough)
     # ---- (e) apply in three forms ------------------------------------------------
     ctx.pmap(apply_worker, [[c] for c in CELLS], codes=table_codes)
